@@ -79,9 +79,29 @@ def written_locals(F, e):
     for i in e.get("ncp", []):
         if i < len(args):
             d = addr_of_local(F, args[i])
+            if d is None:
+                d = decayed_local_array(F, args[i])
             if d is not None:
                 res.append(d)
     return res
+
+
+def decayed_local_array(F, n):
+    """decl id of a local array passed as pointer (array-to-pointer decay)"""
+    for _ in range(6):
+        n = F.deref(n)
+        if not isinstance(n, dict):
+            return None
+        if n.get("k") == "cast":
+            if n.get("ck") == "ArrayToPointerDecay":
+                return local_ref(F, n["sub"])
+            n = n["sub"]
+            continue
+        if n.get("k") == "w":
+            n = n["sub"]
+            continue
+        return None
+    return None
 
 
 class ReachingDefs:
